@@ -31,16 +31,19 @@ Strs(n) == UNION { [1..k -> StrAlphabet] : k \in 0..n }
 RECURSIVE Flat(_)
 Flat(l) == IF l = <<>> THEN <<>> ELSE Head(l) \o <<0>> \o Flat(Tail(l))
 EncStrList(l) == U64n(Len(Flat(l))) \o Flat(l)
-RECURSIVE SplitNul(_, _)
-SplitNul(bs, cur) == IF bs = <<>> THEN <<>>
-                     ELSE IF Head(bs) = 0 THEN <<cur>> \o SplitNul(Tail(bs), <<>>)
-                     ELSE SplitNul(Tail(bs), Append(cur, Head(bs)))
+\* the strings between the NUL terminators (written without recursion: one level per byte overflowed TLC's stack at 255 bytes)
+SplitNul(bs, cur) ==
+  LET Z  == {i \in 1..Len(bs) : bs[i] = 0}
+      n  == Cardinality(Z)
+      zs == [k \in 1..n |-> CHOOSE z \in Z : Cardinality({y \in Z : y < z}) = k - 1]
+  IN [k \in 1..n |-> SubSeq(bs, IF k = 1 THEN 1 ELSE zs[k-1] + 1, zs[k] - 1)]
 FromU32(b) == b[1] + 256 * b[2] + 65536 * b[3]
 FromU64(b) == b[1] + 256 * b[2] + 65536 * b[3]
 (* lengths at which a byte of the little-endian length prefix crosses 0x7F/0x80, 0xFF/0x100, and the second and third byte   *)
 (* come into play (seed C15_7: a length byte >= 0x80 was sign-extended by the decoder)                                        *)
 LongLens == {127, 128, 129, 255, 256, 257, 384, 32767, 32768, 65535, 65536}
 LongStrs == { [i \in 1..n |-> IF i = n THEN 47 ELSE 97] : n \in LongLens }
+MidStrs == { ls \in LongStrs : Len(ls) < 1000 }            \* inside value string lists
 
 (* ---------------- BuildValue ---------------- *)
 KindNames == <<"Invalid", "VirtualInput", "ExistingInput", "MissingInput", "DirectoryContents", "DirectoryTreeSignature",
@@ -62,6 +65,8 @@ Values ==
   \cup { [kind |-> "SuccessfulCommandWithOutputSignature", sig |-> s, infos |-> is, strs |-> <<>>] : s \in {Z8, <<0,0,0,0,1,0,0,0>>}, is \in InfoSeqs }
   \cup { [kind |-> "DirectoryContents", sig |-> NoSig, infos |-> <<i>>, strs |-> l] : i \in FewInfos, l \in StrLists }
   \cup { [kind |-> k, sig |-> NoSig, infos |-> <<>>, strs |-> l] : k \in {"FilteredDirectoryContents", "StaleFileRemoval"}, l \in StrLists }
+  \cup { [kind |-> k, sig |-> NoSig, infos |-> <<>>, strs |-> l] : k \in {"FilteredDirectoryContents", "StaleFileRemoval"},
+                                                                  l \in UNION { {<<ls>>, <<<<97>>, ls>>} : ls \in MidStrs } }
 
 RECURSIVE EncInfos(_)
 EncInfos(is) == IF is = <<>> THEN <<>> ELSE EncInfo(Head(is)) \o EncInfos(Tail(is))
